@@ -252,6 +252,28 @@ let expr_model out =
     | _ -> ()
   done with End_of_file -> ()
 
+(* type-model: lines "hex => <tokens>": the extracted model of the type grammar (Parse/TypeModel.v) on the real lexer's tokens *)
+let type_model out =
+  try while true do
+    let line = input_line stdin in
+    match String.split_on_char ' ' line with
+    | [hex; "=>"; "LEXERR"] -> Printf.fprintf out "%s => LEXERR\n" hex
+    | [hex; "=>"; toks] ->
+      let ts = List.map parse_tok (List.filter (fun x -> x <> "") (String.split_on_char ';' toks)) in
+      (match parse_type ts with
+       | Ok (t, _) ->
+         let b = Buffer.create 256 in
+         dump_tree b (ty_tree t);
+         (match pe_impl Models.schema Models.pos_impl (ty_tree t) with
+          | Some (p, q) when int_of_z p = int_of_z (ty_pos t) && int_of_z q = int_of_z (ty_end t) -> ()
+          | _ -> Buffer.add_string b " POS-MISMATCH");
+         Printf.fprintf out "%s => OK %s\n" hex (Buffer.contents b)
+       | Err p -> Printf.fprintf out "%s => ERR %d\n" hex (int_of_z p)
+       | Unsup -> Printf.fprintf out "%s => UNSUP\n" hex
+       | Fuel -> Printf.fprintf out "%s => FUEL\n" hex)
+    | _ -> ()
+  done with End_of_file -> ()
+
 (* expr-sim: lines "<toks of x> | <toks of y>": the hypothesis of the C16 theorems on two real token lists *)
 let expr_sim out =
   let toks_of s = List.map parse_tok (List.filter (fun x -> x <> "") (String.split_on_char ';' (String.trim s))) in
@@ -374,5 +396,6 @@ let run (args : string list) : bool =
    | ["expr-sim"] -> expr_sim out; true
    | ["bad-model"] -> bad_model out; true
    | ["expr-c01"] -> expr_c01 out; true
+   | ["type-model"] -> type_model out; true
    | ["tree-walkmany"] -> tree_walk out 0 0 true; true
    | _ -> false)
